@@ -20,7 +20,7 @@
 (***************************************************************************)
 EXTENDS Gen, MsgSig, TLC, Json
 
-CONSTANTS Part,     \* "perm" | "perm8" | "fillers" | "vals" | "repeat" | "caps" | "caps8" | "reply" | "chunk" | "probe" | "viabr"
+CONSTANTS Part,     \* "perm" | "perm8" | "fillers" | "vals" | "repeat" | "caps" | "caps8" | "reply" | "chunk" | "probe" | "viabr" | "viaq" | "names"
           K,        \* largest number of fingerprinted header lines of a message (slices with arrangements)
           Auto      \* TRUE: also emit the transcription's records
 
@@ -56,6 +56,12 @@ SigVal(i, alt) ==
     [] i = 8 -> IF alt = 0 THEN V_ua       ELSE V_ua2
 \* slice "viabr": Via values whose FIRST via has no branch parameter (a second via of the same line may have one)
 ViaNoBr(v) == CASE v = 1 -> V_via3 [] v = 2 -> V_via5 [] v = 3 -> V_via7 [] v = 4 -> V_via8
+\* slice "viaq": Via values whose first via HAS the base branch, next to other parameters in every legal form (quoted
+\* strings with ';' ',' '\"' inside, empty quoted string, white space around ';' and '=', BRANCH in capitals, parameter
+\* names that contain "branch", an IPv6 sent-by, a second via with another branch): same fingerprinted content as the base
+                [] v = 5 -> V_via4q1 [] v = 6 -> V_via4q2 [] v = 7 -> V_via4q3 [] v = 8 -> V_via4q4 [] v = 9 -> V_via4q5
+                [] v = 10 -> V_via4q6 [] v = 11 -> V_via4b
+NoBr(x) == x.viav \in 1..4
 SigLine(i, form, alt) ==
   IF alt >= 2 THEN GenHdrLine(SigName(i, form), WS0, WS1, ViaNoBr(alt - 1), WS0, CRLF)
   ELSE IF alt = 0 THEN GenHdrLine(SigName(i, form), WS0, WS1, SigVal(i, 0), WS0, CRLF)
@@ -77,6 +83,9 @@ Filler(f) ==
     [] f = 7 -> GenHdrLine(N_Expires, WS0, WS1, V_expires1, WS0, CRLF)
     [] f = 8 -> GenHdrLine(N_PAI, WS0, WS1, V_pai1, WS0, CRLF)
     [] f = 9 -> GenHdrLine(N_l, WS0, WS1, V_expires2, WS0, CRLF)          \* "l: 0"
+    \* slice "names": the header names of RFC 3261 and of common extensions (Texts!RfcNames); each has the type the
+    \* documented table gives it (GenHdrLine: Lookup!GetHdrTypeDecl), i.e. nearly all are "other" headers
+    [] f >= 10 -> GenHdrLine(RfcNames[f - 9], WS0, WS1, V_x1, WS0, CRLF)
 
 \* ------------------------------------------------------------------ choice -> message
 \* x = [m, ord, forms, alts, fil, rep, hcap, cut, lvl, viav]   (lvl 1: a seed, see below; cut: 0 or the chunk boundary)
@@ -103,7 +112,7 @@ Text(x, lines)  == FLine(x.m) \o CRLF \o CatTxt(lines, 1) \o CRLF
 Ghost(lines)    == SubSeq([k \in 1..Len(lines) |-> [type |-> lines[k].type, nlen |-> lines[k].name[2]]], 1, Len(lines))
 \* the base message of x: same method, order and forms; no fillers, no repeat, base values, everything fits
 Base(x)  == C(x.m, x.ord, x.forms, 0, <<>>, NoRep, 64)      \* (viav: the Via VALUE differs, the demand on HdrSig does not)
-GrpId(x) == IF x.viav = 0 THEN ToString(<<x.m, x.ord, x.forms>>) ELSE ToString(<<x.m, x.ord, x.forms, "nobranch">>)
+GrpId(x) == IF ~NoBr(x) THEN ToString(<<x.m, x.ord, x.forms>>) ELSE ToString(<<x.m, x.ord, x.forms, "nobranch">>)
 
 \* ------------------------------------------------------------------ choice sets
 \* Two levels, so that TLC's workers share the work (initial states are processed by ONE thread): the initial
@@ -156,6 +165,8 @@ Seeds(part, kk) ==
     [] part = "chunk"   -> UNION { { [y EXCEPT !.lvl = 1, !.cut = b] : b \in 0..((Len(Text(y, Lines(y))) - 2) \div ChunkBlk) } : y \in ChunkMsgs }
     [] part = "probe"   -> { Seed(m, o, 0, NoRep) : m \in {1, 2}, o \in {<<1, 4>>, <<1, 2>>, <<2, 1>>, <<2>>, <<7, 1>>, <<1, 7>>} }
     [] part = "viabr"   -> { Seed(m, o, 0, NoRep) : m \in {1, 2}, o \in {<<1, 4, 7>>, <<7, 1>>, <<7>>} }
+    [] part = "viaq"    -> { Seed(m, o, 0, NoRep) : m \in {1, 2}, o \in {<<1, 4, 7>>, <<7, 1>>, <<7>>} }
+    [] part = "names"   -> { Seed(m, o, 0, NoRep) : m \in {1, 2}, o \in {<<7, 4, 1, 8>>, <<1, 8>>, <<4, 7>>, <<8, 3, 2>>} }
 
 \* the messages of a seed s
 Expand(part, s) ==
@@ -188,6 +199,11 @@ Expand(part, s) ==
                                                                              \* before the remaining fingerprinted headers have been seen
                                                                              r \in {NoRep} \cup { <<CHOOSE j \in 1..k : o[j] = 7, 0, sl>> :
                                                                                                    sl \in (CHOOSE j \in 1..k : o[j] = 7)..k } }
+    [] part = "viaq"    -> \* the base (viav 0) and its variants: one group, one full signature
+                           { [C(m, o, f, 0, <<>>, r, 64) EXCEPT !.viav = v] : f \in {0, All(k)}, v \in {0} \cup 5..11,
+                                                                             r \in {NoRep, <<CHOOSE j \in 1..k : o[j] = 7, 0, k>>} }
+    [] part = "names"   -> \* one line with each of the names in every slot (and the message without it)
+                           { C(m, o, 0, 0, fl, NoRep, 64) : fl \in Fil0 \cup Fil1(k, 10..(9 + Len(RfcNames))) }
     [] part = "probe"   -> { C(m, o, 0, 0, fl, NoRep, h) : fl \in { q \in ProbeFils : \A j \in 1..Len(q) : q[j][1] <= k },
                                                            h \in {-1, 0, 1, 2, 3, 4, 64} }
 
@@ -224,7 +240,7 @@ DeclRec(x, lines) ==
            src |-> "decl", prop |-> "C19"]
      ELSE IF d.fits THEN
           [fn |-> "GetMsgSig", args |-> Args(text, x.hcap),
-           res |-> IF x.viav = 0 THEN [perr |-> OK, Method |-> d.Method, HdrSig |-> d.HdrSig, HdrSigLen |-> d.HdrSigLen, err |-> OK]
+           res |-> IF ~NoBr(x) THEN [perr |-> OK, Method |-> d.Method, HdrSig |-> d.HdrSig, HdrSigLen |-> d.HdrSigLen, err |-> OK]
                    \* no branch in the first via: no characters to classify
                    ELSE [perr |-> OK, Method |-> d.Method, HdrSig |-> d.HdrSig, HdrSigLen |-> d.HdrSigLen, err |-> OK, ViaBSig |-> 0],
            src |-> "decl", prop |-> "C19",
